@@ -94,7 +94,7 @@ impl Property for C16 {
          (6 kinds) and vectors (5 kinds) with generated options (some invalid), update them (exact values and arbitrary f64), \
          create/remove/reset vector children, create registries (valid and invalid prefix / common labels, some repeating a metric's own label name and value), register / unregister, \
          custom collectors injecting families built through the setters both data models share (all four printable types, \
-         timestamps, summaries, unset type/help), gather and encode (encode, encode_utf8, encode_to_string). The same source is \
+         timestamps, summaries, unset type/help, repeated-field setters called twice, label pairs built with the setters in three orders, self-consistent histograms with an explicit +Inf bucket), gather and encode (encode, encode_utf8, encode_to_string). The same source is \
          compiled against prometheus with default features (in-process) and with --no-default-features (long-lived child process); \
          oracle: the two canonical dumps (gathered structure + hex of the text encodings + Ok/Err of every call) are byte-identical. \
          A build that disagrees with itself on two runs of one scenario is counted as nondeterministic (C07's subject), not as a C16 \
